@@ -27,7 +27,7 @@ MC = {
 }
 # invariants that the model of the current code violates: counter-examples are leads to replay
 LEADS = {
-    "C05": ["MC_lead_C05_NoLateStart.cfg", "MC_lead_C05_KillReaches.cfg"],
+    "C05": ["MC_lead_C05_KillReaches.cfg"],
 }
 # scenario families of the harness's own generator, (family, quick count, thorough count)
 FAMILIES = {
@@ -337,6 +337,12 @@ def _run(prop, tier, seed, replay, rep, vh, work, finish=True):
         binary = vp.build_binary(os.path.join(work, "blackdagger"))
         srec = os.path.join(work, "stop.ndjson")
         rc.run_vh(vh, ["agentlife", "-bin", binary, "-mode", "stop", "-out", srec], env=dict(vp.GOENV, TMPDIR=work), timeout=600)
+        # the start barrier on the real command executor: a real step held after its own cancel check (before / after the
+        # executor exists) while the stop request is made; this is the behaviour the scripted executor of the rig mimics
+        wrec = os.path.join(work, "window.ndjson")
+        rc.run_vh(vh, ["agentlife", "-bin", binary, "-mode", "window", "-out", wrec], env=dict(vp.GOENV, TMPDIR=work), timeout=600)
+        with open(srec, "a") as out, open(wrec) as f:
+            out.write(f.read())
         sverdicts, sconsumed = rc.observe_records(work, "AgentLifeObserve", srec, nchunks=1)
         for v in sverdicts:
             r = v["rec"]
